@@ -36,7 +36,7 @@ func TestRegressions(t *testing.T) {
 		}
 		vk.Case("regression/v1-loop-interval", true, []byte("r1"), func() any { return info })
 	}
-	// (2) V0, tolerance 5 s: gated polls at 25 s and 30 s versus one evaluation at 30 s
+	// (2) V0, tolerance 5 s: gated polls at 25 s and 30 s versus one gated evaluation at 30 s (both sides TryChangeView*)
 	for _, v1mode := range []bool{false, true} {
 		keys := arbiterKeys(3)
 		mock := newMock(keys)
@@ -47,11 +47,11 @@ func TestRegressions(t *testing.T) {
 			sig = "C26:ChangeViewV1:incremental-vs-oneshot"
 			a.w.TryChangeViewV1(&a.off, at(5*sec))
 			a.w.TryChangeViewV1(&a.off, at(10*sec))
-			one.w.ChangeViewV1(&one.off, at(10*sec))
+			one.w.TryChangeViewV1(&one.off, at(10*sec))
 		} else {
 			a.w.TryChangeView(&a.off, at(25*sec))
 			a.w.TryChangeView(&a.off, at(30*sec))
-			one.w.ChangeView(&one.off, at(30*sec))
+			one.w.TryChangeView(&one.off, at(30*sec))
 		}
 		info := map[string]any{"case": "gated polls exactly on boundaries", "v1": v1mode, "incremental": a.off, "oneshot": one.off}
 		if a.off != one.off || !a.w.GetViewStartTime().Equal(one.w.GetViewStartTime()) {
